@@ -200,7 +200,8 @@ def r2_output_swap(ctx, rule):
                 "encoding, truncating the file", None, fn)
     wq = PG + 'write_guess_to_file'
     wfn = ctx.fn(wq)
-    ws = [U(c) for c in calls_in(wfn)]
+    raised = {id(x) for r_ in walk_local(wfn) if isinstance(r_, ast.Raise) for x in ast.walk(r_)}
+    ws = [U(c) for c in calls_in(wfn) if id(c) not in raised]       # the exception built by a raising guard writes nothing
     p = params(wfn)[1]
     if ws in (['self.output_file.write(%s)' % p, "self.output_file.write('\\n')"], ["self.output_file.write(%s + '\\n')" % p]):
         ctx.ok(rule, wq, 'the file writer writes the guess and one LF - the same line print() produces')
